@@ -171,7 +171,8 @@ Print Assumptions C14_constructors_never_panic.
 (** The debug_assert of TabExpandedString::expanded (state.rs:386, a panic site of debug builds):
     [tes_made v b] lists every way the crate makes or changes a TabExpandedString (`new`, which
     picks NoTabs exactly for tab-free text; the literal NoTabs(""); set_tab_width, which keeps
-    variant and text) - the list is a reading of the source (Builder.v cites the lines).  For every
+    variant and text) - the list is a reading of the source (Builder.v cites the lines), re-counted in
+    /repo/src by c14.rs on every run (failure class unaudited-tabexpandedstring-site).  For every
     value so made `expanded()` does not trip the assertion; the site itself is inhabited (a NoTabs
     value holding a tab).  This is a statement about the CONSTRUCTORS, by induction on [tes_made];
     that every value a bar ever holds is such a value, over all histories of bar operations, is
@@ -185,22 +186,38 @@ Print Assumptions C14_notabs_assert_unreachable.
 (** "Every draw" also runs the Display impls of src/format.rs inside format_state
     (`buf.write_fmt(format_args!("{}", HumanDuration(state.eta()))).unwrap()` ...).  Their partial
     operations are NOT sites of Builder.v: [render_outcome] takes those calls as total, and that
-    rests on C15: [formatter_call] maps every template key to the case of C15's model
-    [Fmt.fmt_model] its arm evaluates - HumanCount / HumanBytes / DecimalBytes / BinaryBytes of pos,
-    len, `per_sec() as u64`; FormattedDuration and `{:#}` HumanDuration of elapsed(), eta(),
-    duration(); HumanFloatCount of per_sec() with the field width as precision - and for EVERY
-    snapshot and EVERY value of the getters (any N for a u64, any (seconds, nanoseconds) for a
-    Duration - so also eta() = u64::MAX s and duration() = Duration::MAX -, any 64-bit pattern for
-    the f64, any precision) that case is in the domain of C15_total, which is everything: the
-    formatter returns a string.  (This is C15's totality lemma re-exported at the arguments
-    format_state passes; like C15_total it depends on the four standard-library axioms that come
-    with Flocq's binary64.  `{pos}`/`{len}`/`{percent}`/`{percent_precise}` use core's integer and
-    float Display, which are trusted.) *)
+    rests on C15, through the key dispatch that C11 ties to the code:
+    [Keys.builtin_value F ticks tab s b w] (Keys.v; compared with the implementation key by key by
+    bin c11) is the text format_state writes for built-in key b; [TabsEnv.fmt_formatters] (C16) is
+    the formatter record F made of Fmt.v's models, in which a model panic would show as the empty
+    text.  [formatter_call s b w = Some (c, suf)] names the case c of C15's [Fmt.fmt_model] and the
+    literal suffix.  The theorem: for EVERY snapshot (any position / length / elapsed / eta /
+    duration in nanoseconds - saturated estimates included -, any f64 pattern of per_sec), every
+    key that has an entry and every width, the model formatter does not panic ([fmt_model c = Ok
+    str], by C15's totality) AND the dispatch draws exactly [str ++ suf] - so the entry is the call
+    the dispatch really makes (a wrong table entry makes the second conjunct false).  Depends, like
+    C15_total, on the four standard-library axioms that come with Flocq's binary64. *)
 Theorem C14_formatters_total :
-  forall (sn : snapshot) (tm : times) (key : list N) (width : option N) (c : IndModel.Fmt.fcase),
-  formatter_call sn tm key width = Some c -> exists s, IndModel.Fmt.fmt_model c = Ok s.
+  forall (dec32 : N -> SpecFloat.spec_float) (ticks : list IndModel.Keys.text) (tab : N)
+         (s : IndModel.Keys.snapshot) (b : IndModel.Keys.bkey) (w : option N)
+         (c : IndModel.Fmt.fcase) (suf : list N),
+  formatter_call s b w = Some (c, suf) ->
+  exists str, IndModel.Fmt.fmt_model c = Ok str
+    /\ fst (IndModel.Keys.builtin_value (IndModel.TabsEnv.fmt_formatters dec32) ticks tab s b w)
+       = str ++ suf.
 Proof. exact formatters_total. Qed.
 Print Assumptions C14_formatters_total.
+
+(** ... and the table is complete: a built-in key without an entry (bars, spinner, msg, prefix,
+    wide elements, `{pos}` `{len}` - core's u64 Display -, `{percent}` `{percent_precise}` - core's
+    f32 Display) produces the same text whatever the format.rs formatters are, i.e. calls none. *)
+Theorem C14_formatter_keys_complete :
+  forall (F G : IndModel.Keys.formatters) (ticks : list IndModel.Keys.text) (tab : N)
+         (s : IndModel.Keys.snapshot) (b : IndModel.Keys.bkey) (w : option N),
+  formatter_call s b w = None -> same_core_formatters F G ->
+  IndModel.Keys.builtin_value F ticks tab s b w = IndModel.Keys.builtin_value G ticks tab s b w.
+Proof. exact formatter_call_none. Qed.
+Print Assumptions C14_formatter_keys_complete.
 
 (** Cross-check with the models of C12 (Padded.v) and C11 (Keys.v), written independently from
     the same Rust functions: PaddedStringDisplay::fmt panics in one model iff it does in the
@@ -259,18 +276,24 @@ Proof.
   vm_compute. reflexivity.
 Qed.
 (* the saturated estimates (a bar of length u64::MAX advancing slower than one step per second, a
-   stalled bar): `{eta}` and `{duration}` evaluate HumanDuration at u64::MAX s, in C15's domain *)
+   stalled bar): eta() = u64::MAX s + 999999999 ns = 18446744073709551615999999999 ns; `{eta}` and
+   `{duration}` evaluate HumanDuration there, `{per_sec:65535}` HumanFloatCount at precision 65535 *)
+Definition ex_sat_snapshot : IndModel.Keys.snapshot :=
+  IndModel.Keys.Build_snapshot 1 (Some 18446744073709551615) 1 false [] []
+    (IndModel.Keys.Build_tobs 0 3000000000 18446744073709551615999999999 18446744073709551615999999999 0).
 Example C14_ex_saturated_estimates :
-  let tm := mktimes (3, 0) (18446744073709551615, 999999999) (18446744073709551615, 999999999) 0 0 in
-  formatter_call plain_snap tm KeyNames.eta None
-    = Some (IndModel.Fmt.CHDur 18446744073709551615 999999999 true)
-  /\ formatter_call plain_snap tm KeyNames.duration (Some 3)
-    = Some (IndModel.Fmt.CHDur 18446744073709551615 999999999 true)
-  /\ formatter_call plain_snap tm KeyNames.eta_precise None
-    = Some (IndModel.Fmt.CFDur 18446744073709551615 999999999)
-  /\ formatter_call plain_snap tm KeyNames.per_sec (Some 65535) = Some (IndModel.Fmt.CFloat (Some 65535) 0)
-  /\ formatter_call plain_snap tm KeyNames.msg None = None.
-Proof. cbv zeta. repeat split; vm_compute; reflexivity. Qed.
+  formatter_call ex_sat_snapshot IndModel.Keys.KEta None
+    = Some (IndModel.Fmt.CHDur 18446744073709551615 999999999 true, [])
+  /\ formatter_call ex_sat_snapshot IndModel.Keys.KDuration (Some 3)
+    = Some (IndModel.Fmt.CHDur 18446744073709551615 999999999 true, [])
+  /\ formatter_call ex_sat_snapshot IndModel.Keys.KEtaPrecise None
+    = Some (IndModel.Fmt.CFDur 18446744073709551615 999999999, [])
+  /\ formatter_call ex_sat_snapshot IndModel.Keys.KPerSec (Some 65535)
+    = Some (IndModel.Fmt.CFloat (Some 65535) 0, IndModel.Keys.per_s)
+  /\ formatter_call ex_sat_snapshot IndModel.Keys.KTotalBytes None
+    = Some (IndModel.Fmt.CBytes 0 18446744073709551615, [])
+  /\ formatter_call ex_sat_snapshot IndModel.Keys.KMsg None = None.
+Proof. repeat split; vm_compute; reflexivity. Qed.
 (* [mt_ok] is needed: a (fictitious) string wider in columns than long in bytes underflows *)
 Example C14_ex_mt_ok_needed : padded_sites (mkmt 1 3) 0 ALeft true = Panic SITE_PAD_LEFT.
 Proof. reflexivity. Qed.
